@@ -273,6 +273,49 @@ mod verif_kani_datetime {
         assert!(same(r, rezone_spec(f_res, true, true)), "the closure's result is re-anchored in the zone: single candidate, representable instant");
     }
 
+    // ---- the two offset shifts through their contracts (Verus unit datetime: `shifted`, one day of headroom / Some iff representable) -----
+    struct ORec { magic: u64, oao_calls: u8, oao_arg: Option<(NaiveDateTime, i32)>, oao_res: Option<NaiveDateTime>, cso_calls: u8, cso_args: [Option<(NaiveDateTime, i32)>; 2], cso_res: [Option<NaiveDateTime>; 2] }
+    static mut OREC: ORec = ORec { magic: 0xC0DE_5EED_D15C_0005, oao_calls: 0, oao_arg: None, oao_res: None, cso_calls: 0, cso_args: [None, None], cso_res: [None, None] };
+    fn st_overflowing_add_offset(x: NaiveDateTime, rhs: FixedOffset) -> NaiveDateTime {
+        // any date the real function can return: a valid date or one of the two sentinels one day outside the range
+        let k: u8 = kani::any();
+        let d = match k { 0 => NaiveDate::BEFORE_MIN, 1 => NaiveDate::AFTER_MAX, _ => any_ndt().date() };
+        let t = NaiveTime::from_num_seconds_from_midnight_opt(kani::any(), x.nanosecond()); kani::assume(t.is_some());
+        let r = NaiveDateTime::new(d, t.unwrap());
+        unsafe { OREC.oao_calls += 1; OREC.oao_arg = Some((x, rhs.local_minus_utc())); OREC.oao_res = Some(r); }
+        r
+    }
+    fn st_checked_sub_offset(x: NaiveDateTime, rhs: FixedOffset) -> Option<NaiveDateTime> {
+        let r = if kani::any() { Some(any_ndt()) } else { None };
+        unsafe { let i = OREC.cso_calls as usize; if i < 2 { OREC.cso_args[i] = Some((x, rhs.local_minus_utc())); OREC.cso_res[i] = r; } OREC.cso_calls += 1; }
+        r
+    }
+    /// the wall-clock reading the operation started from: the recorded result of utc + offset
+    fn wall_of(u: NaiveDateTime, o: FixedOffset) -> NaiveDateTime {
+        let (calls, arg, res) = unsafe { (OREC.oao_calls, OREC.oao_arg, OREC.oao_res) };
+        assert!(calls == 1 && arg == Some((u, o.local_minus_utc())), "the wall-clock reading is utc + the stored offset");
+        res.unwrap()
+    }
+    /// rezone_spec over the recorded shifts
+    fn rezone_light(w: Option<NaiveDateTime>, lo: bool, hi: bool) -> Option<(NaiveDateTime, i32)> {
+        let (calls, arg, res) = unsafe { (ZREC.loc_calls, ZREC.loc_arg, ZREC.loc_res) };
+        let (cso_calls, cso_args, cso_res) = unsafe { (OREC.cso_calls, OREC.cso_args, OREC.cso_res) };
+        match w {
+            None => { assert!(calls == 0 && cso_calls == 0, "no new wall-clock reading: the zone is not asked"); None }
+            Some(w) => {
+                assert!(calls == 1 && arg == Some(w), "the zone is asked once, about the new wall-clock reading");
+                match res {
+                    MappedLocalTime::None => { assert!(cso_calls == 0, "nothing to convert"); None }
+                    MappedLocalTime::Single(o) => {
+                        assert!(cso_calls == 1 && cso_args[0] == Some((w, o)), "instant = new wall-clock reading - the candidate's offset");
+                        match cso_res[0] { Some(u) if (!lo || u >= NaiveDateTime::MIN) && (!hi || u <= NaiveDateTime::MAX) => Some((u, o)), _ => None }
+                    }
+                    MappedLocalTime::Ambiguous(a, b) => { assert!(cso_calls == 2 && cso_args[0] == Some((w, a)) && cso_args[1] == Some((w, b)), "both candidates converted"); None }
+                }
+            }
+        }
+    }
+
     // ---- the wrappers over map_local / from_local_datetime, with the NaiveDateTime operation taken through its contract -------------
     // NaiveDateTime::{with_*, checked_add/sub_months, checked_add/sub_days} are proved elsewhere (vk_ndt_with_date_fields, vk_ndt_with_time_fields,
     // vk_date_add_months, Verus datetime:checked_add_days ...); here each is a stub returning ANY Option<NaiveDateTime>, recorded.
@@ -301,7 +344,6 @@ mod verif_kani_datetime {
 
     fn dt_with_fields_any_zone(lo: u8, hi: u8) {
         let (u, o, dt) = any_zoned();
-        let w = u.overflowing_add_offset(o);
         let v: u32 = kani::any();
         let which: u8 = kani::any();
         kani::assume(which >= lo && which <= hi);
@@ -309,6 +351,7 @@ mod verif_kani_datetime {
             0 => dt.with_year(v as i32), 1 => dt.with_month(v), 2 => dt.with_month0(v), 3 => dt.with_day(v), 4 => dt.with_day0(v), 5 => dt.with_ordinal(v), 6 => dt.with_ordinal0(v),
             7 => dt.with_hour(v), 8 => dt.with_minute(v), 9 => dt.with_second(v), _ => dt.with_nanosecond(v),
         };
+        let w = wall_of(u, o);
         let (calls, op, recv, arg, res) = unsafe { (FREC.calls, FREC.op, FREC.recv, FREC.v, FREC.res) };
         kani::cover!(got.is_some()); kani::cover!(got.is_none());
         let new_wall = if which == 0 && w.year() == v as i32 {
@@ -318,12 +361,14 @@ mod verif_kani_datetime {
             assert!(calls == 1 && op == which && recv == Some(w) && arg == v as u64, "the named field of the wall-clock reading is replaced by the given value");
             res
         };
-        assert!(same(got, rezone_spec(new_wall, true, true)), "the new wall-clock reading is re-anchored in the zone");
+        assert!(same(got, rezone_light(new_wall, true, true)), "the new wall-clock reading is re-anchored in the zone");
     }
 
     // fns: Datelike::with_year for DateTime<Tz> (every zone)
-    // assumes: kani:vk_dt_map_local_any_zone, kani:vk_ndt_with_date_fields, kani:vk_ndt_with_time_fields
+    // assumes: kani:vk_dt_map_local_any_zone, kani:vk_ndt_with_date_fields, kani:vk_ndt_with_time_fields, NaiveDateTime::overflowing_add_offset, NaiveDateTime::checked_sub_offset
     #[kani::proof]
+    #[kani::stub(NaiveDateTime::overflowing_add_offset, st_overflowing_add_offset)]
+    #[kani::stub(NaiveDateTime::checked_sub_offset, st_checked_sub_offset)]
     #[kani::stub(<NaiveDateTime as Datelike>::with_year, st_with_year)]
     #[kani::stub(<NaiveDateTime as Datelike>::with_month, st_with_month)]
     #[kani::stub(<NaiveDateTime as Datelike>::with_month0, st_with_month0)]
@@ -337,8 +382,10 @@ mod verif_kani_datetime {
     #[kani::stub(<NaiveDateTime as Timelike>::with_nanosecond, st_with_nanosecond)]
     fn vk_dt_with_year_any_zone() { dt_with_fields_any_zone(0, 0); }
     // fns: Datelike::{with_month, with_month0, with_day} for DateTime<Tz> (every zone)
-    // assumes: kani:vk_dt_map_local_any_zone, kani:vk_ndt_with_date_fields, kani:vk_ndt_with_time_fields
+    // assumes: kani:vk_dt_map_local_any_zone, kani:vk_ndt_with_date_fields, kani:vk_ndt_with_time_fields, NaiveDateTime::overflowing_add_offset, NaiveDateTime::checked_sub_offset
     #[kani::proof]
+    #[kani::stub(NaiveDateTime::overflowing_add_offset, st_overflowing_add_offset)]
+    #[kani::stub(NaiveDateTime::checked_sub_offset, st_checked_sub_offset)]
     #[kani::stub(<NaiveDateTime as Datelike>::with_year, st_with_year)]
     #[kani::stub(<NaiveDateTime as Datelike>::with_month, st_with_month)]
     #[kani::stub(<NaiveDateTime as Datelike>::with_month0, st_with_month0)]
@@ -352,8 +399,10 @@ mod verif_kani_datetime {
     #[kani::stub(<NaiveDateTime as Timelike>::with_nanosecond, st_with_nanosecond)]
     fn vk_dt_with_month_day_any_zone() { dt_with_fields_any_zone(1, 3); }
     // fns: Datelike::{with_day0, with_ordinal, with_ordinal0} for DateTime<Tz> (every zone)
-    // assumes: kani:vk_dt_map_local_any_zone, kani:vk_ndt_with_date_fields, kani:vk_ndt_with_time_fields
+    // assumes: kani:vk_dt_map_local_any_zone, kani:vk_ndt_with_date_fields, kani:vk_ndt_with_time_fields, NaiveDateTime::overflowing_add_offset, NaiveDateTime::checked_sub_offset
     #[kani::proof]
+    #[kani::stub(NaiveDateTime::overflowing_add_offset, st_overflowing_add_offset)]
+    #[kani::stub(NaiveDateTime::checked_sub_offset, st_checked_sub_offset)]
     #[kani::stub(<NaiveDateTime as Datelike>::with_year, st_with_year)]
     #[kani::stub(<NaiveDateTime as Datelike>::with_month, st_with_month)]
     #[kani::stub(<NaiveDateTime as Datelike>::with_month0, st_with_month0)]
@@ -367,8 +416,10 @@ mod verif_kani_datetime {
     #[kani::stub(<NaiveDateTime as Timelike>::with_nanosecond, st_with_nanosecond)]
     fn vk_dt_with_day0_ordinal_any_zone() { dt_with_fields_any_zone(4, 6); }
     // fns: Timelike::{with_hour, with_minute, with_second, with_nanosecond} for DateTime<Tz> (every zone)
-    // assumes: kani:vk_dt_map_local_any_zone, kani:vk_ndt_with_date_fields, kani:vk_ndt_with_time_fields
+    // assumes: kani:vk_dt_map_local_any_zone, kani:vk_ndt_with_date_fields, kani:vk_ndt_with_time_fields, NaiveDateTime::overflowing_add_offset, NaiveDateTime::checked_sub_offset
     #[kani::proof]
+    #[kani::stub(NaiveDateTime::overflowing_add_offset, st_overflowing_add_offset)]
+    #[kani::stub(NaiveDateTime::checked_sub_offset, st_checked_sub_offset)]
     #[kani::stub(<NaiveDateTime as Datelike>::with_year, st_with_year)]
     #[kani::stub(<NaiveDateTime as Datelike>::with_month, st_with_month)]
     #[kani::stub(<NaiveDateTime as Datelike>::with_month0, st_with_month0)]
@@ -383,7 +434,6 @@ mod verif_kani_datetime {
     fn vk_dt_with_clock_any_zone() { dt_with_fields_any_zone(7, 10); }
     fn dt_steps_any_zone(lo: u8, hi: u8) {
         let (u, o, dt) = any_zoned();
-        let w = u.overflowing_add_offset(o);
         let n: u32 = kani::any(); let n64: u64 = kani::any();
         let which: u8 = kani::any();
         kani::assume(which >= lo && which <= hi);
@@ -394,24 +444,29 @@ mod verif_kani_datetime {
             };
             let (calls, op, recv, arg, res) = unsafe { (FREC.calls, FREC.op, FREC.recv, FREC.v, FREC.res) };
             kani::cover!(got.is_some()); kani::cover!(got.is_none() && res.is_some());
-            if which == 2 && n64 == 0 { assert!(calls == 0 && got.map(|g| (g.naive_utc(), g.offset().local_minus_utc())) == Some((u, o.local_minus_utc())), "Days(0) is the identity"); }
+            if which == 2 && n64 == 0 { assert!(calls == 0 && unsafe { OREC.oao_calls } == 0 && got.map(|g| (g.naive_utc(), g.offset().local_minus_utc())) == Some((u, o.local_minus_utc())), "Days(0) is the identity"); }
             else {
+                let w = wall_of(u, o);
                 assert!(calls == 1 && op == 11 + which && recv == Some(w) && arg == (if which <= 1 { n as u64 } else { n64 }), "the step is taken on the wall-clock reading");
-                assert!(same(got, rezone_spec(res, which == 3, which == 2)), "the stepped wall-clock reading is re-anchored in the zone");
+                assert!(same(got, rezone_light(res, which == 3, which == 2)), "the stepped wall-clock reading is re-anchored in the zone");
             }
         }
     }
     // fns: DateTime::checked_add_months, DateTime::checked_sub_months (every zone)
-    // assumes: kani:vk_date_add_months, kani:vk_date_sub_months
+    // assumes: kani:vk_date_add_months, kani:vk_date_sub_months, NaiveDateTime::overflowing_add_offset, NaiveDateTime::checked_sub_offset
     #[kani::proof]
+    #[kani::stub(NaiveDateTime::overflowing_add_offset, st_overflowing_add_offset)]
+    #[kani::stub(NaiveDateTime::checked_sub_offset, st_checked_sub_offset)]
     #[kani::stub(NaiveDateTime::checked_add_months, st_add_months)]
     #[kani::stub(NaiveDateTime::checked_sub_months, st_sub_months)]
     #[kani::stub(NaiveDateTime::checked_add_days, st_add_days)]
     #[kani::stub(NaiveDateTime::checked_sub_days, st_sub_days)]
     fn vk_dt_months_any_zone() { dt_steps_any_zone(0, 1); }
     // fns: DateTime::checked_add_days, DateTime::checked_sub_days (every zone)
-    // assumes: NaiveDateTime::checked_add_days, NaiveDateTime::checked_sub_days
+    // assumes: NaiveDateTime::checked_add_days, NaiveDateTime::checked_sub_days, NaiveDateTime::overflowing_add_offset, NaiveDateTime::checked_sub_offset
     #[kani::proof]
+    #[kani::stub(NaiveDateTime::overflowing_add_offset, st_overflowing_add_offset)]
+    #[kani::stub(NaiveDateTime::checked_sub_offset, st_checked_sub_offset)]
     #[kani::stub(NaiveDateTime::checked_add_months, st_add_months)]
     #[kani::stub(NaiveDateTime::checked_sub_months, st_sub_months)]
     #[kani::stub(NaiveDateTime::checked_add_days, st_add_days)]
